@@ -39,6 +39,9 @@ def quiet_round(w, apply, period=0.05, drain_iters=24):
             if w.T - c.t_start > w.cfg.get('sched', {}).get('connect_timeout', 8.0):
                 apply([0.0, 'conn', cid, 'timeout'])
             continue
+        slow = getattr(w, 'slow_pairs', None)
+        if slow and (c.chost, c.shost) in slow and w.T - c.t_start < slow[(c.chost, c.shost)]:
+            continue        # a handshake that takes its time (lost SYNs are re-sent after 1 s, 3 s, ...)
         apply([0.0, 'conn', cid, 'ok' if (c.shost is not None and (c.shost, c.port) in w.net.listeners) else 'refuse'])
     for it in range(drain_iters):
         live = w.net.live_pipes()
